@@ -358,6 +358,12 @@ def known_class(case, failure):
         if failure == "dask-raises:TypeError" and how == "leftsemi" and li and not ri:
             return "leftsemi-left-index"
         side = _broadcast_side(case)
+        if failure == "wrong-rows" and side and "npartitions" in kw:
+            # npartitions= repartitions the NON-broadcast side; does that flip which side is the smaller one?
+            n = kw["npartitions"]
+            nl2, nr2 = (len(lp), n) if side == "left" else (n, len(rp))
+            if ("left" if nl2 < nr2 else "right") != side:
+                return "npartitions-flips-broadcast-side"
         if failure == "wrong-rows" and how == "leftsemi" and side == "left":
             return "leftsemi-broadcast-left"
         if failure == "dask-raises:ValueError" and how in ("left", "right") and ((side == "left" and ri) or (side == "right" and li)):
